@@ -140,6 +140,38 @@ def counting_loop_ok(ctx, ma, v, ca):
     return ma.cfg.dominates(wb, incs[0]) or ma.cfg.dominates(incs[0], wb)
 
 
+def check_convert_action_table(ctx, rep, rid):
+    """convert_action: exhaustive over TriggerAction, every destination field filled from the same-named source field of the same variant"""
+    prog, an = ctx.prog, ctx.an
+    ca = prog.fn(FFI, None, 'convert_action')
+    fa = an.get(ca)
+    rep.analysed(ca)
+    tvars = prog.adt('maybenot::action::TriggerAction')['variants']
+    mvars = {v['name']: v for v in prog.adt('maybenot_ffi::MaybenotAction')['variants']}
+    aggs = aggregates(fa, 'maybenot_ffi::MaybenotAction')
+    by = {}
+    for (site, var, flds, ln) in aggs:
+        by.setdefault(var, []).append((site, flds))
+    pfh = an.paths(ca, history=True)
+    for tv in tvars:
+        n = tv['name']
+        rep.ob(rid, ca, 'action-variant:' + n, n in mvars and len(by.get(n, [])) == 1, 'MaybenotAction::%s built %d time(s)' % (n, len(by.get(n, []))))
+        for (site, flds) in by.get(n, []):
+            ok_arm, w = all_paths(pfh.at(site[0], site[1]), lambda S: any(f[0] == 'variant' and f[2] == n for f in S))
+            rep.ob(rid, ca, 'action-variant-under-own-arm:' + n, ok_arm, '')
+            srcf = {f['name'] for f in tv['fields']}
+            for df in mvars[n]['fields']:
+                e = flds.get(df['name'])
+                sf = src_field(e)
+                ok = sf is not None and sf[0].endswith('TriggerAction') and sf[1] == n and sf[2] == df['name'] and df['name'] in srcf
+                rep.ob(rid, ca, 'action-field:%s.%s' % (n, df['name']), ok, '%s = %s' % (df['name'], shape(e)))
+            for sfld in srcf:
+                rep.ob(rid, ca, 'action-field-carried:%s.%s' % (n, sfld), sfld in flds, '')
+    for v in mvars:
+        rep.ob(rid, ca, 'no-extra-variant:' + v, v in [t['name'] for t in tvars], '')
+    return ca
+
+
 def check_C20(ctx, rep):
     prog, an = ctx.prog, ctx.an
     rep.rule('C20.R1', 'translation tables: convert_action is exhaustive over TriggerAction and fills every destination field from the same-named '
@@ -156,32 +188,8 @@ def check_C20(ctx, rep):
              'lines().map(Machine::from_str); the three failure sites map to MachineStringNotUtf8 / InvalidMachineString / StartFramework; '
              'Box::into_raw only in maybenot_start, Box::from_raw only in maybenot_stop, no forget/leak')
     # ---- R1
-    ca = prog.fn(FFI, None, 'convert_action')
+    ca = check_convert_action_table(ctx, rep, 'C20.R1')
     fa = an.get(ca)
-    rep.analysed(ca)
-    tvars = prog.adt('maybenot::action::TriggerAction')['variants']
-    mvars = {v['name']: v for v in prog.adt('maybenot_ffi::MaybenotAction')['variants']}
-    aggs = aggregates(fa, 'maybenot_ffi::MaybenotAction')
-    by = {}
-    for (site, var, flds, ln) in aggs:
-        by.setdefault(var, []).append((site, flds))
-    pfh = an.paths(ca, history=True)
-    for tv in tvars:
-        n = tv['name']
-        rep.ob('C20.R1', ca, 'action-variant:' + n, n in mvars and len(by.get(n, [])) == 1, 'MaybenotAction::%s built %d time(s)' % (n, len(by.get(n, []))))
-        for (site, flds) in by.get(n, []):
-            ok_arm, w = all_paths(pfh.at(site[0], site[1]), lambda S: any(f[0] == 'variant' and f[2] == n for f in S))
-            rep.ob('C20.R1', ca, 'action-variant-under-own-arm:' + n, ok_arm, '')
-            srcf = {f['name'] for f in tv['fields']}
-            for df in mvars[n]['fields']:
-                e = flds.get(df['name'])
-                sf = src_field(e)
-                ok = sf is not None and sf[0].endswith('TriggerAction') and sf[1] == n and sf[2] == df['name'] and df['name'] in srcf
-                rep.ob('C20.R1', ca, 'action-field:%s.%s' % (n, df['name']), ok, '%s = %s' % (df['name'], shape(e)))
-            for sfld in srcf:
-                rep.ob('C20.R1', ca, 'action-field-carried:%s.%s' % (n, sfld), sfld in flds, '')
-    for v in mvars:
-        rep.ob('C20.R1', ca, 'no-extra-variant:' + v, v in [t['name'] for t in tvars], '')
     ce = prog.fn(FFI, None, 'convert_event')
     ea = an.get(ce)
     rep.analysed(ce)
@@ -457,7 +465,8 @@ def check_C20(ctx, rep):
         if not callee_str(f).endswith('into_raw'):
             continue
         ok, w = all_paths(pfw.at_entry(b), lambda S: any(
-            (f2[0] == 'variant' and f2[2] == 'Some' and contains(f2[1], lambda y: y == ('param', outp))) or
+            (f2[0] == 'variant' and f2[2] in ('Some', 'Continue', 'Ok') and contains(f2[1], lambda y: y == ('param', outp)) and
+             contains(f2[1], lambda y: is_call(y, 'as_mut') or is_call(y, 'as_ref') or is_call(y, 'NonNull::<T>::new'))) or
             (f2[0] == 'bcall' and f2[1].endswith('is_null') and f2[3] is False and contains(f2[2], lambda y: y == ('param', outp))) for f2 in S))
         rep.ob('C20.R5', ms, 'instance-created-only-with-a-place-to-return-it', ok,
                'Box::into_raw is reached only after `out` was found non-null' + ('' if ok else '; witness: ' + show_facts(w)))
